@@ -22,4 +22,5 @@ INVARIANT UnknownNamesAreReportedAndIgnored
 INVARIANT OthersUntouched
 INVARIANT CopiesStartEqual
 INVARIANT AdHocStaysWithTheCopy
+INVARIANT LateSettingOnlyWhereItExists
 CHECK_DEADLOCK FALSE
